@@ -176,6 +176,8 @@ def pattern_strings(ctx, n):
     refs = ["%i%", "%u%", "%f%", "%bt%", "%nl%", "%s%", "%empty%", "%uni%"]
     fns = ['%env("VERIF_A")%', '%env("VERIF_MISSING", "dflt")%', '%envInt("VERIF_N")%', '%envInt("VERIF_MISSING", 5)%', '%env("VERIF_MISSING")%', '%envInt("VERIF_A")%', '%todo()%', '%todo("later")%',
            # a variable that is SET to the empty string exists: no default, no "does not exist"
+           # user functions with typed parameters: literal arguments are converted (int -> uint / float64 / time.Duration, string -> named string)
+           '%fu(3, 2)%', '%fd(1500, "warn")%', 'x%fu(7, 1)%y',
            '%env("VERIF_E")%', '%env("VERIF_E", "dflt")%', '%envInt("VERIF_E")%', '%envInt("VERIF_E", 5)%', '%envInt("VERIF_NEG")%', '%envInt("VERIF_NEG", 1)%']
     out = list(lits) + refs + fns
     for _ in range(n):
@@ -198,7 +200,7 @@ def level_b(ctx):
     for k, p in enumerate(pats):
         params["x%d" % k] = p
         names.append("x%d" % k)
-    cfg = {"meta": {"pkg": "gen", "imports": {"fx": gen.FX}}, "parameters": params,
+    cfg = {"meta": {"pkg": "gen", "imports": {"fx": gen.FX}, "functions": {"fu": "fx.FnU", "fd": "fx.FnD"}}, "parameters": params,
            "services": {"holder": {"constructor": "fx.NewA", "arguments": ["%x0%"]}}}
     ops = [["param", nm] for nm in list(params)]
     out, err = behave.run_batch(ctx, [(cfg, ops)], tag="c03")
